@@ -229,13 +229,13 @@ func (ctx *cmdContext) infoUnlocked(cs *clientState) string {
 
 	info = append(info,
 		fmt.Sprintf("id=%d", cs.id),
-		"name="+cs.name,
-		fmt.Sprintf("db=%d", cs.selectedDb),
+		"name="+cs.getName(),
+		fmt.Sprintf("db=%d", cs.getSelectedDb()),
 		fmt.Sprintf("multi=%d", multi),
 		fmt.Sprintf("flags=%s", flags.String()),
 		"cmd="+ctx.cmdToken,
 		"user="+cs.user,
-		fmt.Sprintf("resp=%d", cs.respVersion),
+		fmt.Sprintf("resp=%d", cs.getRespVersion()),
 	)
 
 	var sb strings.Builder
@@ -478,7 +478,7 @@ func (cd *cmdDispatcher) dispatchHandler(ctx *cmdContext) (output respValue) {
 		}
 	}
 
-	if ctx.cs.respVersion == 2 {
+	if ctx.cs.getRespVersion() == 2 {
 		output = resp3To2(result)
 	} else {
 		output.data = result.data
